@@ -51,7 +51,7 @@ def main():
         b = os.path.join(scratch, "_b")
         r1 = sh("cmake -G Ninja -S %s -B %s -DCMAKE_BUILD_TYPE=RelWithDebInfo -DCMAKE_CXX_FLAGS=-Wno-error -DCMAKE_C_FLAGS=-Wno-error && cmake --build %s -j8 --target photospline-test photospline-test-templated photospline-test-fit" % (scratch, b, b))
         res["builds_with_change"] = (r1.returncode == 0)
-        r2 = sh("ctest --test-dir %s -j8 --timeout 1800" % b)
+        r2 = sh("OPENBLAS_NUM_THREADS=2 ctest --test-dir %s -j8 --timeout 1800" % b)   # (BLAS threads limited: several confirmations run side by side)
         res["testsuite_with_change"] = "pass" if r2.returncode == 0 else "FAIL"
         res["testsuite_tail"] = r2.stdout[-300:]
         shutil.rmtree(b, ignore_errors=True)
